@@ -205,6 +205,7 @@ def literal_init_family(run, quick):
             elif c < 0.8: v = r.choice([hi, hi - 1, hi // 2, hi // 2 + 1, hi // 3 * 2, lo, lo + 1] if core.signed(t) else [hi, hi - 1, hi // 2, hi // 2 + 1, hi // 3 * 2])
             else: v = r.randint(lo, hi)
             v = max(lo, min(hi, v))
+            if not (-(1 << 63) <= v < (1 << 63)): wide[0] = True      # an operand above the i64 range is typed i128 (same finding)
             return ("(%d)" % v if v < 0 else str(v)), v, v
         op = r.choice(["+", "-", "*", "+", "-", "/", "%"])
         (sa, xa, wa), (sb, xb, wb) = expr(t, depth - 1), expr(t, depth - 1)
@@ -219,7 +220,7 @@ def literal_init_family(run, quick):
         else:
             x = xa - xb * (abs(xa) // abs(xb) * (1 if (xa >= 0) == (xb >= 0) else -1))
             w = wa - wb * (abs(wa) // abs(wb) * (1 if (wa >= 0) == (wb >= 0) else -1))
-        if not (-(1 << 63) <= x < (1 << 64)): wide[0] = True
+        if not (-(1 << 63) <= x < (1 << 63)): wide[0] = True
         return "(%s %s %s)" % (sa, op, sb), x, core.wrap(t, w)
     fam = []
     nprog = 8 if quick else 80
@@ -238,10 +239,10 @@ def literal_init_family(run, quick):
                 if op1 == "*": b = r.choice([2, 3])
                 s = "((%d %s %d) %s %d)" % (a, op1, b, op2, d)
                 xi = a + b if op1 == "+" else a * b
-                if not (-(1 << 63) <= xi < (1 << 64)):
-                    # keep the intermediate inside the 64-bit range (gate of F-LIT-WIDE-INTERMEDIATE); overflow of the declared
-                    # type is still reached for every narrower type and for i64
-                    a, b = a // 4, (b // 4 if op1 == "+" else b)
+                while not all(-(1 << 63) <= q_ < (1 << 63) for q_ in (a, b, xi)):
+                    # keep operands and intermediate inside the i64 range (gate of F-LIT-WIDE-INTERMEDIATE: anything above it is
+                    # typed i128); overflow of the declared type is still reached for every type narrower than 64 bits
+                    a, b = a // 2, (b // 2 if op1 == "+" else b)
                     s = "((%d %s %d) %s %d)" % (a, op1, b, op2, d)
                     xi = a + b if op1 == "+" else a * b
                 wi = core.wrap(t, xi)
